@@ -976,10 +976,19 @@ fn main() {
         // invalid templates only in the malformed stream
         let bad_template = fi % 9 == 7;
         let fix = |t: (&'static str, bool)| if !t.1 && !bad_template { TEMPLATES[0] } else { t };
+        // twin fonts: IFTX is a copy of IFT's entries under another template / compat id, so that candidates of
+        // the two tables tie on the whole IntersectionInfo incl. entry order (max_by_key's last-maximum matters)
+        let twin = layout >= 8 && layout < 17 && fi % 4 == 1;
+        let rng0 = rng.clone();
         if layout < 17 {
             tables.push(gen_table(&mut rng, 0, 1, fix(t0), &o, &mut st));
         }
-        if layout >= 8 {
+        if twin {
+            let mut r2 = rng0.clone();
+            let tt = if fix(t0).0 == TEMPLATES[3].0 { TEMPLATES[0] } else { TEMPLATES[3] };
+            tables.push(gen_table(&mut r2, 1, 2, tt, &o, &mut st));
+            st.count("enc.twin_tables");
+        } else if layout >= 8 {
             tables.push(gen_table(&mut rng, 1, if same_cid { 1 } else { 2 }, fix(t1), &o, &mut st));
         }
         // uri ranks over every entry of the font
